@@ -75,8 +75,14 @@ def build(case, use_style):
     elif kind == "super" and len(case["ballots"]) % 2 == 1:
         # called directly, as the library's own test does, without the optional share_to_win argument:
         # the contest's share governs
+        # (the caller's list of losers is the caller's: the constructor was already called once with the same list object)
+        keep = list(losers)
+        Assertion.make_supermajority_assertion(contest=con, winner=case["winners"][0], loser=losers,
+                                               test=NonnegMean.alpha_mart, estim=NonnegMean.shrink_trunc)
         con.assertions = Assertion.make_supermajority_assertion(contest=con, winner=case["winners"][0], loser=losers,
                                                                 test=NonnegMean.alpha_mart, estim=NonnegMean.shrink_trunc)
+        if losers != keep:
+            raise AssertionError(f"make_supermajority_assertion altered the caller's loser list: {losers} (was {keep})")
     else:
         Assertion.make_all_assertions(contests)
     cvrs = []
